@@ -67,8 +67,12 @@ def run(ctx):
         R = Reach(F, r["inst"])
         ctx.floor("reachable /repo instances", len(R.local), 80, cfg=cfg)
         defs = {i["def"] for i in R.local}
-        for d in EXPECTED_HANDWRITTEN:
-            ctx.oblige("C04|reachable|" + d, d in defs, "%s is no longer reachable from Request::deserialize (renamed? the obligation scan would miss its replacement)" % d, cfg=cfg, nontrivial=False)
+        t_w, s_w, t_fn, f_fn, p_fn = c13.names(F)
+        role = {"webauthn::deserialize_from_str_and_truncate": t_w, "webauthn::deserialize_from_str_and_skip_if_too_long": s_w, "webauthn::truncate": t_fn,
+                "webauthn::floor_char_boundary": f_fn, "webauthn::is_utf8_char_boundary": p_fn}
+        for d0 in EXPECTED_HANDWRITTEN:
+            d = role.get(d0, d0)
+            ctx.oblige("C04|reachable|" + d0, d in defs, "%s is no longer reachable from Request::deserialize (renamed? the obligation scan would miss its replacement)" % d, cfg=cfg, nontrivial=False)
         covered, why = template_discharges(F)
         used = {}
         obs = R.obligations()
@@ -79,7 +83,7 @@ def run(ctx):
             key = "C04|obligation|%s|%s" % (d, kind)
             discharged = False
             rule = None
-            if d in ("webauthn::floor_char_boundary", "webauthn::truncate"):
+            if d in (f_fn, t_fn):
                 # the MIR event's span lies inside (or equals) the span of a construct the template covers
                 from .oblig_mono import _sp
                 want = _sp(ev.get("sp"))
@@ -96,7 +100,7 @@ def run(ctx):
             if kind.startswith("static") and not ev.get("mutable"):
                 discharged, rule = True, "immutable static"
             msg = "undischarged obligation on the decode path: %s in %s (%s); call path: %s" % (kind, inst["name"][:90], ev.get("sp"), " -> ".join(R.path_to(inst["i"])[-4:]))
-            if not discharged and d in ("webauthn::floor_char_boundary", "webauthn::truncate") and why:
+            if not discharged and d in (f_fn, t_fn) and why:
                 msg += "; the C13 floor template does not hold: %s" % (why[:2],)
             ctx.oblige(key, discharged, msg, cfg=cfg, where=ev.get("sp"))
             if discharged:
